@@ -13,7 +13,9 @@ structure Obj where
   bal : Nat
   nonce : Nat
   suicided : Bool
-  stor : Nat → Nat                  -- effective storage view: dirtyStorage over the committed store
+  stor : Nat → Nat                  -- effective storage view: dirtyStorage over originStorage (the committed store)
+  base : Nat → Nat                  -- what Commit compares a slot with: transientStorage (the value the last Commit of
+                                    -- this object wrote) where there is one, originStorage otherwise
 
 inductive Entry
   | create (a : Nat)                                  -- createObjectChange
@@ -63,7 +65,7 @@ def DB.new (k : Keeper) : DB :=
 def DB.get (db : DB) (a : Nat) : Option Obj :=
   match db.objs a with
   | some o => some o
-  | none => if db.k.exist a then some { bal := db.k.bal a, nonce := db.k.nonce a, suicided := false, stor := db.k.store a } else none
+  | none => if db.k.exist a then some { bal := db.k.bal a, nonce := db.k.nonce a, suicided := false, stor := db.k.store a, base := db.k.store a } else none
 
 def DB.getState (db : DB) (a k : Nat) : Nat :=
   match db.get a with
@@ -71,8 +73,13 @@ def DB.getState (db : DB) (a k : Nat) : Nat :=
   | none => 0
 
 def DB.push (db : DB) (e : Entry) : DB :=
-  { db with journal := e :: db.journal,
-            dirties := match e.dirtied with | some a => upd db.dirties a (db.dirties a + 1) | none => db.dirties }
+  -- (the new count is computed before the closure is built: a `match` in function position would be eta-expanded
+  -- by the compiler and re-evaluate the old count on every lookup)
+  match e.dirtied with
+  | some a =>
+    let n := db.dirties a + 1
+    { db with journal := e :: db.journal, dirties := upd db.dirties a n }
+  | none => { db with journal := e :: db.journal }
 
 def DB.setObj (db : DB) (a : Nat) (o : Obj) : DB := { db with objs := upd db.objs a (some o) }
 
@@ -96,7 +103,7 @@ def DB.load (db : DB) (a : Nat) : DB :=
   | some _ => db
   | none =>
     if db.k.exist a then
-      { db with objs := upd db.objs a (some { bal := db.k.bal a, nonce := db.k.nonce a, suicided := false, stor := db.k.store a }) }
+      { db with objs := upd db.objs a (some { bal := db.k.bal a, nonce := db.k.nonce a, suicided := false, stor := db.k.store a, base := db.k.store a }) }
     else db
 
 /-- the address whose object an operation looks up (access-list operations look up none) -/
@@ -113,7 +120,7 @@ def mstepCore (db : DB) : MOp → DB
   | .create a =>
     match db.get a with
     | some _ => db
-    | none => (db.push (.create a)).setObj a { bal := 0, nonce := 0, suicided := false, stor := db.k.store a }
+    | none => (db.push (.create a)).setObj a { bal := 0, nonce := 0, suicided := false, stor := db.k.store a, base := db.k.store a }
   | .setBal a v =>
     match db.get a with
     | some o => (db.push (.balance a o.bal)).setObj a { o with bal := v }
@@ -139,15 +146,21 @@ def mstepCore (db : DB) : MOp → DB
     if db.accS a k then db else { db.push (.accSlot a k) with accS := upd db.accS a (upd (db.accS a) k true) }
   | .createAccount a =>
     match db.get a with
-    | none => (db.push (.create a)).setObj a { bal := 0, nonce := 0, suicided := false, stor := db.k.store a }
+    | none => (db.push (.create a)).setObj a { bal := 0, nonce := 0, suicided := false, stor := db.k.store a, base := db.k.store a }
     | some prev =>
       -- resetObjectChange marks nothing dirty; the new object reads committed storage, the balance is carried over
-      (db.push (.reset a prev)).setObj a { bal := prev.bal, nonce := 0, suicided := false, stor := db.k.store a }
+      (db.push (.reset a prev)).setObj a { bal := prev.bal, nonce := 0, suicided := false, stor := db.k.store a, base := db.k.store a }
 
 def mstep (db : DB) (op : MOp) : DB :=
   match op.addr with
   | some a => mstepCore (db.load a) op
   | none => mstepCore db op
+
+/-- The specification shape of `DB.push` (what the proofs unfold to). -/
+theorem DB.push_def (db : DB) (e : Entry) : db.push e =
+    { db with journal := e :: db.journal,
+              dirties := match e.dirtied with | some a => upd db.dirties a (db.dirties a + 1) | none => db.dirties } := by
+  unfold DB.push; cases e.dirtied <;> rfl
 
 /-- JournalEntry.Revert -/
 def undo (db : DB) : Entry → DB
@@ -165,9 +178,18 @@ def undo (db : DB) : Entry → DB
 /-- undo the newest journal entry and lower the dirty count of the address it touched -/
 def undoTop (db : DB) (e : Entry) : DB :=
   let db1 := undo db e
-  { db1 with dirties := match e.dirtied with
-                        | some a => upd db1.dirties a (db1.dirties a - 1)
-                        | none => db1.dirties }
+  match e.dirtied with
+  | some a =>
+    let n := db1.dirties a - 1
+    { db1 with dirties := upd db1.dirties a n }
+  | none => db1
+
+/-- The specification shape of `undoTop` (what the proofs unfold to). -/
+theorem undoTop_def (db : DB) (e : Entry) : undoTop db e =
+    { undo db e with dirties := match e.dirtied with
+                                | some a => upd (undo db e).dirties a ((undo db e).dirties a - 1)
+                                | none => (undo db e).dirties } := by
+  unfold undoTop; cases e.dirtied <;> rfl
 
 /-- journal.Revert: undo the entries (newest first) until only `n` are left -/
 def revertEntries (db : DB) : List Entry → Nat → DB
@@ -241,6 +263,12 @@ def syncBalances (db : DB) (addrs : List Nat) : DB := addrs.foldl syncOne db
 def Keeper.setBalance (k : Keeper) (a v : Nat) : Keeper :=
   { k with bal := upd k.bal a v, supply := k.supply + (v : Int) - (k.bal a : Int) }
 
+/-- a dirty slot is written unless it holds the value the object last saw committed ("skip noop changes");
+    a slot that is not dirty holds that value by construction -/
+def writeSlot (o : Obj) (a : Nat) (kk : Keeper) (key : Nat) : Keeper :=
+  if o.stor key = o.base key then kk
+  else { kk with store := upd kk.store a (upd (kk.store a) key (o.stor key)) }
+
 /-- Commit of one dirty address -/
 def commitOne (db : DB) (k : Keeper) (a : Nat) (keys : List Nat) : Keeper :=
   match db.objs a with
@@ -255,12 +283,16 @@ def commitOne (db : DB) (k : Keeper) (a : Nat) (keys : List Nat) : Keeper :=
     else
       let k1 := k.setBalance a o.bal
       let k2 := { k1 with exist := upd k1.exist a true, nonce := upd k1.nonce a o.nonce }
-      -- the dirty keys are written; a key that is not dirty already holds its effective value
-      keys.foldl (fun kk key => { kk with store := upd kk.store a (upd (kk.store a) key (o.stor key)) }) k2
+      keys.foldl (writeSlot o a) k2
+
+/-- what Commit leaves in a written object: transientStorage[key] = the value just written -/
+def flushObj (o : Obj) (keys : List Nat) : Obj :=
+  if o.suicided then o else { o with base := fun key => if key ∈ keys then o.stor key else o.base key }
 
 /-- Commit: every address with a positive dirty count, in ascending order (`addrs` lists the addresses
     and `keys` the storage keys the run can mention) -/
 def commit (db : DB) (addrs keys : List Nat) : DB :=
-  { db with k := addrs.foldl (fun k a => if db.dirties a > 0 then commitOne db k a keys else k) db.k }
+  { db with k := addrs.foldl (fun k a => if db.dirties a > 0 then commitOne db k a keys else k) db.k,
+            objs := fun a => if a ∈ addrs ∧ db.dirties a > 0 then (db.objs a).map (fun o => flushObj o keys) else db.objs a }
 
 end Haqq.SDB
